@@ -1051,7 +1051,10 @@ bool Session::send_process(Message *msg) // called from the connection (possibly
 		if (is_dup)
 		{
 			if (_loginParameters._always_seqnum_assign)
+			{
 				delete msg->Header()->remove(Common_PossDupFlag);
+				is_dup = false; // goes out as a new message under the next number: counted and stored like one
+			}
 		}
 		else
 		{
